@@ -271,6 +271,8 @@ impl Prop for C12 {
         v.push(GenSpec::enumerated("words-depth5", 537_824 * tier.pick(0, 1)));
         v.push(GenSpec::random("large-coordinates", tier.pick(20_000, 1_000_000)));
         v.push(GenSpec::random("general-angles", tier.pick(20_000, 1_000_000)));
+        // the same placement arithmetic from several threads of one process at once (each layout is its own; nothing is shared by the caller)
+        v.push(GenSpec::random("threads", tier.pick(16, 400)));
         v
     }
     fn run_case(&self, cx: &mut Cx) {
@@ -308,6 +310,24 @@ impl Prop for C12 {
                         Letter { reflect: cx.rng.bool(), angle: Some(a), quarter: 0, loc: (cx.rng.range(-big, big), cx.rng.range(-big, big)) }
                     })
                     .collect();
+                // placements are not independent in real designs: a block rotated by t inside a parent rotated by -t (or both mirrored at
+                // the same angle) - the rotations cancel exactly, the composition is a pure translation again
+                let mut word = word;
+                if word.len() >= 2 && cx.rng.chance(1, 4) {
+                    let k = cx.rng.usize(word.len() - 1);
+                    let a = word[k].angle.unwrap();
+                    if cx.rng.bool() {
+                        word[k + 1].angle = Some(-a);
+                        word[k].reflect = false;
+                        word[k + 1].reflect = false;
+                    } else {
+                        word[k + 1].angle = Some(a);
+                        word[k].reflect = true;
+                        word[k + 1].reflect = true;
+                    }
+                    cx.count("general_words_with_cancelling_rotations");
+                }
+                let word = word;
                 cx.nontrivial(crate::rt::prng::strhash(&format!("{:?}", word)));
                 let t = guard(|| {
                     let mut t = Transform::identity();
@@ -385,9 +405,12 @@ impl Prop for C12 {
                     elems: vec![mk(Shape::Polygon(Polygon { points: pts.iter().map(|p| pt(*p)).collect() })), mk(Shape::Path(Path { points: pts[..3].iter().map(|p| pt(*p)).collect(), width }))],
                     annotations: vec![],
                 };
+                // names play no part in geometry: one hierarchy in three gives every level the leaf's name (a user's `inv` wrapping a vendor's
+                // `inv`), which is a different cell each time
+                let same_names = cx.rng.chance(1, 3);
                 for (i, l) in word.iter().enumerate().rev() {
                     let cell: Ptr<Cell> = Ptr::new(Cell::from(cur));
-                    cur = Layout { name: format!("level{}", i), insts: vec![Instance { inst_name: format!("i{}", i), cell, loc: pt(l.loc), reflect_vert: l.reflect, angle: l.angle }], elems: vec![], annotations: vec![] };
+                    cur = Layout { name: if same_names { "leaf".into() } else { format!("level{}", i) }, insts: vec![Instance { inst_name: format!("i{}", i), cell, loc: pt(l.loc), reflect_vert: l.reflect, angle: l.angle }], elems: vec![], annotations: vec![] };
                 }
                 cx.eval();
                 match guard(|| cur.flatten()) {
@@ -450,6 +473,52 @@ impl Prop for C12 {
                     }
                 }
                 cx.sample(|| describe(&word));
+            }
+            "threads" => {
+                // four threads, each placing at its own angles, each comparing every placement with the composition of the library's own
+                // elementary transforms (entry for entry) and a point's image under both
+                let seeds: Vec<u64> = (0..4).map(|_| cx.rng.u64()).collect();
+                let results: Vec<Result<Option<String>, Caught>> = std::thread::scope(|sc| {
+                    let hs: Vec<_> = seeds
+                        .iter()
+                        .map(|sd| {
+                            let sd = *sd;
+                            sc.spawn(move || {
+                                guard(move || {
+                                    let mut rng = Rng::new(sd);
+                                    for _ in 0..5_000 {
+                                        let a = match rng.below(3) {
+                                            0 => rng.range(-720, 720) as f64,
+                                            1 => rng.range(-7200, 7200) as f64 / 10.0,
+                                            _ => 90.0 * rng.range(-4, 4) as f64,
+                                        };
+                                        let (refl, loc) = (rng.bool(), (rng.range(-1000, 1000), rng.range(-1000, 1000)));
+                                        let placed = Transform::from_instance(&pt(loc), refl, Some(a));
+                                        let mut inner = Transform::rotate(a);
+                                        if refl {
+                                            inner = Transform::cascade(&inner, &Transform::reflect_vert());
+                                        }
+                                        let composed = Transform::cascade(&Transform::translate(loc.0 as f64, loc.1 as f64), &inner);
+                                        if placed.a != composed.a || placed.b != composed.b {
+                                            return Some(format!("angle {} reflect {}: placement {:?} vs composition {:?}", a, refl, placed.a, composed.a));
+                                        }
+                                    }
+                                    None
+                                })
+                            })
+                        })
+                        .collect();
+                    hs.into_iter().map(|h| h.join().unwrap_or_else(|_| Err(Caught { msg: "thread died".into(), ..Default::default() }))).collect()
+                });
+                for r in results {
+                    cx.eval();
+                    match r {
+                        Err(c) => cx.violation(&format!("threads|panic|{}", c.norm_msg()), json!({"panic": c.msg})),
+                        Ok(Some(w)) => cx.violation("threads|placement-differs-from-composition", json!({"what": w})),
+                        Ok(None) => cx.count("threaded_placement_batches_agree"),
+                    }
+                }
+                cx.nontrivial(seeds[0]);
             }
             other => cx.inconclusive(format!("unknown generator {}", other)),
         }
